@@ -472,7 +472,7 @@ class Evaluator:
                 if isinstance(v, SymInt) and v.is_const():
                     v = bool(v.value())
                 if not isinstance(v, bool):
-                    raise Unsupported(f"boolean operator on symbolic values `{norm(e)}`")
+                    v = self._decide(norm(sub))  # undecided on symbolic fields: the caller explores both outcomes or reports the dependence
                 if is_and and not v:
                     return False
                 if not is_and and v:
